@@ -55,7 +55,7 @@ func Spec() *mon.Spec {
 
 func gen(g *mon.Gen) {
 	rng := g.Rng
-	n := g.Pick(40, 900)
+	n := g.Pick(40, 2500)
 	for i := 0; i < n; i++ {
 		client := []int{0, 1, 0, 1, 2}[i%5]
 		mode := []string{"plain", "plain", "cancel", "lifecycle", "linear", "plain", "linear"}[i%7]
